@@ -228,6 +228,23 @@ def run(rep, tier, seed):
     for seekable in (True, False):
         check_stream(rep, long_tag_cases, 'ber', seekable, rng)
         check_stream(rep, long_tag_cases[2:6], 'ber', seekable, rng)
+    # corpus: encodings whose contents begin with (or are nothing but) an end-of-octets marker of an inner element -
+    # an untagged CHOICE whose chosen alternative is an empty constructed value in the indefinite form, also nested
+    from harness import sexp_types as _st
+    for ts, vs in [('(choice (r (seqof int)) (r int))', '(ch 0 (of))'),
+                   ('(choice (r (tag i c 3 (seq (o int)))) (r bool))', '(ch 0 (seq absent))'),
+                   ('(choice (r (setof bool)) (r (tag e c 1 (seqof int))))', '(ch 0 (of))'),
+                   ('(choice (r (tag e c 1 (seqof int))) (r null))', '(ch 0 (of))'),
+                   ('(seq (r (choice (r (seqof int)) (r bool))) (r int))', '(seq (ch 0 (of)) (i 5))'),
+                   ('(seqof (choice (r (seqof int)) (r (str 4))))', '(of (ch 0 (of)) (ch 1 (s 6162)) (ch 0 (of (i 1))))'),
+                   ('(choice (r (choice (r (set (o bool))) (r int))) (r null))', '(ch 0 (ch 0 (seq absent)))')]:
+        case = engine.Case(_st.ty_of_sexp(gen.parse_sexps(ts)[0]), gen.val_of_sexp(gen.parse_sexps(vs)[0]))
+        rep.case('corpus ' + case.canon, nontrivial=True)
+        check_case(rep, drv, case, [('ber', True, 0), ('ber', False, 0), ('ber', False, 2), ('cer', False, 1000), ('der', True, 0)], rng)
+        for mode in (('ber', False, 0), ('cer', False, 1000)):
+            ie = codec.impl_encode(mode[0], case.t, case.v, mode[1], mode[2], obj=case.fresh_obj())
+            if ie[0] == 'ok':
+                pool.append((mode[0], case, ie[1]))
     for case in engine.gen_cases(rng, n, max_depth=2, allow_any=True):
         if not engine.representable(case):
             continue
